@@ -189,7 +189,7 @@ def gen(repo):
         dict(fn="month_val",
              requires=["-660 <= year <= 10650", "ystart(year as int) <= greg_date < ystart(year as int + 1)"],
              ensures=["1 <= r <= 12", "habs(1, r as int, year as int) <= greg_date < habs(1, r as int, year as int) + mlen(year as int, r as int)"],
-             rewrites=[("let mut month = 1;", "let mut month: u8 = 1;")],
+             rewrites=[("let mut month = 1;", "let mut month: u8 = 1;", "once")],
              loops=[dict(invariant=["1 <= month <= 12", "habs(1, month as int, year as int) <= greg_date",
                                     "-660 <= year <= 10650", "greg_date < ystart(year as int + 1)"],
                          decreases="13 - month",
